@@ -49,7 +49,8 @@ def main():
     props = a[a.index('--props') + 1].split(',') if '--props' in a else PROPS
     jobs = []
     if '--seeds' in a or not any(x in a for x in ('--seeds', '--refactors')):
-        for d in sorted(glob.glob('/verif/seeded/C*-*')):
+        sdir = a[a.index('--dir') + 1] if '--dir' in a else '/verif/seeded'
+        for d in sorted(glob.glob(sdir + '/C*-*')):
             name = os.path.basename(d)
             if only and only not in name:
                 continue
@@ -57,7 +58,7 @@ def main():
                 continue
             jobs.append(('seed', name, d + '/patch.diff', PROPS if '--all' in a else [name[:3]]))
     if '--refactors' in a or not any(x in a for x in ('--seeds', '--refactors')):
-        for f in sorted(glob.glob('/verif/seeded/refactors/*.diff') + glob.glob('/verif/seeded/refactors2/*.diff')):
+        for f in sorted(glob.glob('/verif/seeded/refactors*/*.diff')):
             name = os.path.basename(f)[:-5]
             if only and only not in name:
                 continue
@@ -85,7 +86,7 @@ def main():
                         for l in v[1]:
                             print('            %s %s' % (k, l[:240]))
     print('regress: %d job(s), %d problem(s)' % (len(jobs), bad))
-    if '--all' in a and not only and '--props' not in a:
+    if '--all' in a and not only and '--props' not in a and '--dir' not in a:
         json.dump(results, open('/verif/seeded/RESULTS.json', 'w'), indent=1, sort_keys=True)
     sys.exit(1 if bad else 0)
 
